@@ -37,6 +37,8 @@ CLAUSE_PROPS = {
     "RecordWindow": {"C13", "C03"},
     "RecordOutput": {"C13"},
     "RecordRngChain": {"C13"},
+    "RecordMessagesComplete": {"C13"},
+    "InertLog": {"C13"},
     "ExactlyOnce": {"C06"},
     "ExactlyOnce_MissingExecution": {"C06"},
     "ExactlyOnce_ExtraExecution": {"C06"},
